@@ -1368,3 +1368,7 @@ mutant("vid6-bool-array-2d-shape-transposed", "C01", SOLVER, "            return
 variant("vid6-size-by-math-prod", "C01", SOLVER, ["        size = functools.reduce(lambda x, y: x * y, shape, 1)\n        vars = [self.bool_var() for _ in range(size)]"],
         ["        size = 1\n        for extent in shape:\n            size *= extent\n        vars = [self.bool_var() for _ in range(size)]"], "the size computed by a loop")
 mutant("alg9-single-loop-arguments-swapped", "C06", "cspuz/grid_frame.py", "        return graph.active_edges_single_cycle(self.solver, self)", "        return graph.active_edges_single_cycle(self, self.solver)", "ALG-9")
+mutant("opc7-flatten-iterator-one-level-only", ["C12", "C01"], CONS, """            for xs in arg:
+                for x in flatten_iterator(xs):
+                    yield x""", """            for xs in arg:
+                yield xs""", "OPC-7")
